@@ -318,7 +318,11 @@ def layer_api_routes(lmon, work, idx, valid_text, mtexts, sh):
                     f.write('[metadata]\nversion = "1"\n')
                 r0 = lmon.call(dict(LAYER_ROUTES["cached_layer"], name=L))
                 if "err" in r0:
-                    raise vp.Broken("layer-api write_metadata route: obtaining the handle failed: %r" % (r0,))
+                    # (a plain valid file: if this fails, an earlier rejected document is still having an effect)
+                    sh.violation("layer-api:cached_layer:valid-rejected-after-a-rejection", "cached_layer fails on the plain valid <layer>.toml '[metadata] version = \"1\"' (the documents read before it in this process were rejected ones): %s" % r0.get("detail", "")[:300],
+                                 {"format": "layer_toml", "as": route, "kind": "valid", "where": "-", "text": '[metadata]\nversion = "1"\n', "route": "layer-api"})
+                    vp.rmtree(root)
+                    return
                 with open(os.path.join(root, "layers", L + ".toml"), "w") as f:
                     f.write(text)
             rep = lmon.call(req)
